@@ -12,11 +12,16 @@ zero-initialised `l1s.tdma_sched` with `cur_bucket = CUR`.  Ops:
   gz                     sched_gsmtime_reset()        -> z
   sched … | set … | exec | adv | reset | flags | dump        the TDMA scheduler ops of `ts.run`, same answers
 Same protocol as harness/c/c08_gsmtime_harness.c.  Parsing/rendering of the TDMA ops is the one of
-Driver/TdmaSched.lean (`parseCmd?`, `parseSet?`, `renderCall`, `harnessEnv`, `faultName`, `splitSemi`).
+Driver/TdmaSched.lean (`parseCmd?`, `parseSet?`, `renderCall`, `harnessRet`, `faultName`, `splitAt`); the callbacks of
+this harness make no scheduler calls from inside (`scripts = []`; a `def` request is refused).
 -/
 namespace OsmoVerif.Driver.SchedGsmtime
-open OsmoVerif OsmoVerif.TdmaSched OsmoVerif.SchedGsmtime OsmoVerif.Driver
-open OsmoVerif.Driver.TdmaSched (parseCmd? parseSet? renderCall harnessEnv faultName splitSemi)
+open OsmoVerif OsmoVerif.SchedGsmtime OsmoVerif.Driver
+open OsmoVerif.TdmaSched (Item Sched Fault Env flagScan dump)
+open OsmoVerif.Driver.TdmaSched (parseCmd? parseSet? renderCall harnessRet faultName splitAt)
+
+/-- the environment of harness/c/c08_gsmtime_harness.c: the fixed callback table, no calls from inside -/
+def harnessEnv : Env := ⟨harnessRet, []⟩
 
 inductive GCmd where
   | g (op : SOp)
@@ -31,7 +36,10 @@ def parseGCmd? : List String → Option GCmd
       let fn ← parseNat? fn
       pure (.g (.gexec fn))
   | ["gz"] => some (.g .greset)
-  | toks => (parseCmd? toks).map .t
+  | toks => do
+      match ← parseCmd? toks with
+      | .defScript .. => none
+      | c => pure (.t c)
 
 def renderElem (it : Item) : String :=
   match it.cb with
@@ -64,8 +72,9 @@ def runGCmds (env : Env) : Sys → List GCmd → List String → Except Fault (L
         | .scheduleSet .. => "r" ++ toString out.rc
         | .advance => "a"
         | .reset => "z"
-        | .execute => "x" ++ toString out.rc ++ String.join (out.ran.map (renderCall env))
+        | .execute => "x" ++ toString out.rc ++ String.join (out.ran.map (fun it => renderCall env (it, [])))
       runGCmds env st' rest (tok :: acc)
+  | _, .t (.defScript ..) :: _, _ => .error .oob      -- not reached: refused by `parseGCmd?`
   | st, .g o :: rest, acc => do
       let (st', out) ← sstep env st o
       let tok := match o with
@@ -80,8 +89,8 @@ def handle : List String → Option String
   | "sg.run" :: cur :: toks => do
       let cur ← parseNat? cur
       if cur ≥ Gen.tdmaNumFrames then none
-      let cmds ← (splitSemi toks).mapM parseGCmd?
-      match runGCmds harnessEnv ⟨SchedGsmtime.init, TdmaSched.init cur⟩ cmds [] with
+      let cmds ← (splitAt ";" toks).mapM parseGCmd?
+      match runGCmds harnessEnv ⟨SchedGsmtime.init, OsmoVerif.TdmaSched.init cur⟩ cmds [] with
       | .ok out => pure (" ".intercalate out)
       | .error f => pure ("fault:" ++ faultName f)
   | _ => none
